@@ -92,6 +92,13 @@ def plan(tier: str, seed: int, nproc: int = 5) -> list:
     # cores -- the most sensitive probe for id recycling inside a test and for cores surviving into later tests
     for w in range(nproc):
         add("assume", 900 + w, kw={"cases": 12 + 4 * (w % 3), "extra": 3 + (w % 4)})
+    # same-named contract pair: a contract whose assertion paths are all infeasible, then (same contract and function
+    # names, different code) one whose assertion paths are all feasible
+    for r in range(1 if tier == "quick" else 4):
+        nm = f"C16_samename_{r}"
+        add("assume", 950 + r, kw={"cases": 12, "extra": 3, "p_empty": 0.0, "name": nm},
+            prelude=dict(fam="assume", seed=b + 950 + r, kw={"cases": 12, "extra": 3, "p_empty": 1.0, "name": nm}))
+        items[-1]["order"] = ("on", "off")
     for r in range(rounds):
         o = 10 * r
         add("tree", o + 0)
